@@ -110,7 +110,11 @@ PROPS["C03"] = {
     "n_quick": 300,
     "n_thorough": 3000,
     "trusted_base": TB_FOLD,
-    "assumptions": [],
+    "assumptions": [
+        "theorems cover the FOLD third of C03 (folding the lexical value of the enum formatter's output, also with derived copulas at any depth, returns the value) and the table obligations; that the lexical parser returns that lexical value (C02) and the enum parser the value (C01) is decided here by differential testing of the two real pipelines",
+        "Rust f64 Display/FromStr round trip on numbers in [0,1] is a hypothesis (H_rt) of C03_fold_lex_of_narsese",
+        "known classes K1-K3 (inherent ambiguities of the surface syntax, listed under C01) are filtered from the text stream; K1 reappears as C03_fold_K1_witness",
+    ],
 }
 PROPS["C05F"] = {
     "props": ["Props/C05F.v"],
@@ -119,5 +123,8 @@ PROPS["C05F"] = {
     "n_quick": 400,
     "n_thorough": 6000,
     "trusted_base": TB_FOLD,
-    "assumptions": [],
+    "assumptions": [
+        "fold half of C05 only (plus the fold halves of C12 and C14); the lexical-parser half is not covered",
+        "no statement about running time: head_skip_spaces in the stamp side door loops forever in Rust for a format with an empty parse space (no shipped format has one); the model runs it on fuel",
+    ],
 }
